@@ -172,14 +172,7 @@ theorem minv_d {s s' : St} {a : DAct} (h : MInv s) (hf : FInv s) (hs : dStep s a
   | cancelS =>
     simp only [dStep] at hs
     split at hs <;> (try split at hs) <;> simp at hs; subst hs
-    rename_i hd _
-    refine { ownD := h1, ownW := h2, ownS1 := ?_, ownS2 := ?_, thdD := h5, thdW := h6, thdS1 := ?_, thdS2 := ?_,
-             canc := ?_ }
-    · intro hc; cases hc
-    · intro _; exact Or.inr rfl
-    · intro hc; simp [SPC.holdsT] at hc
-    · intro _; exact Or.inr rfl
-    · intro _; exact Or.inl hd
+    exact ⟨h1, h2, h3, h4, h5, h6, h7, h8, h9⟩
   | ret =>
     simp only [dStep] at hs
     split at hs <;> (try split at hs) <;> simp at hs; subst hs
